@@ -141,7 +141,10 @@ func main() {
 		n := 0
 		for _, f := range files {
 			rel, _ := filepath.Rel(repo, f)
-			if rel == "internal/rt/gcwb.go" || strings.HasPrefix(rel, "loader/vshim") {
+			// not rewritten: the write-barrier stub; the assembler back end (its sync.Pool only
+			// recycles instruction objects inside one thread-local compilation - thousands of
+			// Get/Put per compile would drown the schedule space; it stays under the -race pass)
+			if rel == "internal/rt/gcwb.go" || rel == "internal/jit/backend.go" || rel == "internal/jit/assembler_amd64.go" || strings.HasPrefix(rel, "loader/vshim") {
 				continue
 			}
 			rf := f
@@ -216,6 +219,8 @@ func readYields() map[string]yieldSpec {
 				for _, r := range strings.Split(a[5:], ",") {
 					ys.recvs[r] = true
 				}
+			case strings.HasPrefix(a, "narrow!="): // filter applied in every scheduler flavour
+				ys.narrow = regexp.MustCompile(a[8:])
 			case strings.HasPrefix(a, "narrow="):
 				if narrowMode {
 					ys.narrow = regexp.MustCompile(a[7:])
